@@ -34,13 +34,17 @@ LEVEL_TEXT = ('The writer (`_smiles`: start choice, BFS distances, DFS with cycl
               'closure pair), no fuel bound of the model is ever reached, and hence the written body lexes and a positional reader '
               '(readL, compared with the real smiles(text) on every sampled case) reads back exactly the atoms and the bond set of the '
               'molecule under the written order; equal token lists force equal elements, isotope labels, charges, bracket H counts '
-              'and bond sets. The DFS locals of the real frame (start, discovery order, tree, closure bonds) are compared with the '
-              'model per round. NOT proved for all graphs: the bond symbols read back and everything about stereo configuration; '
+              'and bond sets; every chain bond read back carries exactly the symbol _format_bond(parent, atom) and that symbol decodes '
+              'to the bond order. The DFS locals of the real frame (start, discovery order, tree, closure bonds) are compared with the '
+              'model per round. NOT proved for all graphs: the symbols at the two ends of ring closures and everything about stereo configuration; '
               'these are certified run by run by Lean-executed checkers and by re-reading the text with the reader model of C03 '
               '(Lean judge incl. stereo) and with the real reader (Python judge under the written atom order, no canonicaliser; '
               'for nested dependent stereo units additionally an own permutation-parity judge).')
 LEVEL_NOTE = ('Lean kernel; hand transcription Model/SmilesWriter.lean validated by exact correspondence (not derived from the Python '
-              'text); atom weights, CPython set iteration orders and random draws are inputs of the model taken from the real run; '
+              'text); the round-5 theorems assume only the decidable Mol.WF (and, for the lexical step, no aromatic-bonded halogen), both '
+              'evaluated on the wire molecule of every case; the positional reader readL is a model of "a SMILES reader numbers atoms in '
+              'reading order", tied to the real smiles(text) by correspondence; '
+              'atom weights, CPython set iteration orders and random draws are inputs of the model taken from the real run; '
               'reader model of C03 and translation functions of C12 (Model/Stereo.lean) imported; the stereogenic-centre tables are inputs.')
 TECHNIQUE = 'Lean 4 executable writer model + DFS-invariant/round-trip/closure/lexer theorems for all well-formed graphs + exact correspondence (text, tokens, DFS locals, positional re-read) + Lean-side structural checkers + re-read judged under the written order'
 HAS_DRIVER = True
